@@ -56,5 +56,22 @@ def run(seed=0, rounds=400):
         fl = float(rng.choice([numpy.nan, numpy.inf, -numpy.inf, 0., 1., -2.5]))
         g = float(rng.choice([numpy.nan, numpy.inf, 0., 3.]))
         check('ieee-comparisons', (not (fl > g) if numpy.isnan(fl) or numpy.isnan(g) else True) and ((max(fl, g) == g) == (g > fl) or numpy.isnan(max(fl, g)) or fl == g), fl, g)
+    # str axioms used by the C19 substring contracts (contracts/c19_text.py)
+    alphabet = 'a +-/^_()[]{}<>09.zA\u0663'
+    for _ in range(rounds):
+        n = rng.randint(0, 8)
+        t = ''.join(alphabet[i] for i in rng.randint(0, len(alphabet), size=n))
+        for p in (' + ', ' - ', ' / ', '^', '_', ' ', '-', ')'):
+            check('str.startswith', t.startswith(p) == (len(t) >= len(p) and all(t[k] == p[k] for k in range(len(p)))), t, p)
+            check('str.endswith', t.endswith(p) == (len(t) >= len(p) and all(t[len(t) - len(p) + k] == p[k] for k in range(len(p)))), t, p)
+        c = len(t) - len(t.lstrip(' '))
+        check('str.lstrip', 0 <= c <= n and all(t[k] == ' ' for k in range(c)) and (c == n or t[c] != ' ') and t.lstrip(' ') == t[c:], t)
+        sl = slice(int(rng.randint(-9, 10)), int(rng.randint(-9, 10)))
+        st, sp, _ = sl.indices(n)
+        check('str-slice', t[sl] == ''.join(t[i] for i in range(st, max(st, sp))), t, (sl.start, sl.stop))
+        for ch in t:
+            check('char-order-is-code-point-order', ('0' <= ch <= '9') == (48 <= ord(ch) <= 57) and ('a' <= ch <= 'z') == (97 <= ord(ch) <= 122), ch)
+            if '0' <= ch <= '9':
+                check('int-of-ascii-digit', int(ch) == ord(ch) - 48, ch)
     print('AXIOMS ' + json.dumps(dict(rounds=rounds, failures=fails[:5])))
     return not fails
